@@ -6,6 +6,7 @@ import (
 	"errors"
 	"path"
 	"strings"
+	"sync"
 	"time"
 
 	"github.com/hack-pad/hackpadfs"
@@ -16,6 +17,9 @@ const chmodBits = hackpadfs.ModePerm | hackpadfs.ModeSetuid | hackpadfs.ModeSetg
 // FS wraps a Store as a file system.
 type FS struct {
 	store *transactionOnly
+	// opMu makes every operation of this FS and of its files atomic with respect to the others.
+	// An operation takes several store transactions (look up, check, then change), which must not interleave with another operation's.
+	opMu sync.Mutex
 }
 
 // NewFS returns a new FS wrapping the given 'store'.
@@ -43,8 +47,10 @@ func (fs *FS) wrapperErr(op string, path string, err error) error {
 
 // Mkdir implements hackpadfs.MkdirFS
 func (fs *FS) Mkdir(name string, perm hackpadfs.FileMode) error {
+	fs.opMu.Lock()
+	defer fs.opMu.Unlock()
 	file := fs.newDir(name, perm)
-	_, err := fs.Stat(name)
+	_, err := fs.stat(name)
 	switch {
 	case err == nil:
 		return fs.wrapperErr("mkdir", name, hackpadfs.ErrExist)
@@ -52,7 +58,7 @@ func (fs *FS) Mkdir(name string, perm hackpadfs.FileMode) error {
 		return err
 	}
 	if name != "." {
-		parent, err := fs.Stat(path.Dir(name))
+		parent, err := fs.stat(path.Dir(name))
 		if err != nil {
 			return fs.wrapperErr("mkdir", name, err)
 		}
@@ -69,6 +75,8 @@ func (fs *FS) newDir(name string, perm hackpadfs.FileMode) *file {
 
 // MkdirAll implements hackpadfs.MkdirAllFS
 func (fs *FS) MkdirAll(path string, perm hackpadfs.FileMode) error {
+	fs.opMu.Lock()
+	defer fs.opMu.Unlock()
 	missingDirs, err := fs.findMissingDirs(path)
 	if err != nil {
 		if _, ok := err.(*hackpadfs.PathError); !ok {
@@ -197,6 +205,8 @@ func (fs *FS) Open(name string) (hackpadfs.File, error) {
 
 // OpenFile implements hackpadfs.OpenFileFS
 func (fs *FS) OpenFile(name string, flag int, perm hackpadfs.FileMode) (afFile hackpadfs.File, retErr error) {
+	fs.opMu.Lock()
+	defer fs.opMu.Unlock()
 	paths := []string{name}
 	if flag&hackpadfs.FlagCreate != 0 {
 		paths = append(paths, path.Dir(name))
@@ -242,13 +252,15 @@ func (fs *FS) OpenFile(name string, flag int, perm hackpadfs.FileMode) (afFile h
 
 	if flag&hackpadfs.FlagTruncate != 0 {
 		// truncate through the underlying file: like os, O_TRUNC takes effect whatever the access mode
-		return file, fs.wrapperErr("open", name, storeFile.Truncate(0))
+		return file, fs.wrapperErr("open", name, storeFile.truncate(0))
 	}
 	return file, nil
 }
 
 // Remove implements hackpadfs.RemoveFS
 func (fs *FS) Remove(name string) error {
+	fs.opMu.Lock()
+	defer fs.opMu.Unlock()
 	if name == "." {
 		// the root directory always exists
 		return fs.wrapperErr("remove", name, hackpadfs.ErrInvalid)
@@ -272,6 +284,8 @@ func (fs *FS) Remove(name string) error {
 
 // Rename implements hackpadfs.RenameFS
 func (fs *FS) Rename(oldname, newname string) error {
+	fs.opMu.Lock()
+	defer fs.opMu.Unlock()
 	err := fs.rename(oldname, newname)
 	if err != nil {
 		if pathErr, ok := err.(*hackpadfs.PathError); ok {
@@ -370,6 +384,12 @@ func (fs *FS) renameFile(oldFile *file, oldname, newname string) error {
 
 // Stat implements hackpadfs.StatFS
 func (fs *FS) Stat(name string) (hackpadfs.FileInfo, error) {
+	fs.opMu.Lock()
+	defer fs.opMu.Unlock()
+	return fs.stat(name)
+}
+
+func (fs *FS) stat(name string) (hackpadfs.FileInfo, error) {
 	file, err := fs.getFile(name)
 	if err != nil {
 		return nil, fs.wrapperErr("stat", name, err)
@@ -379,6 +399,8 @@ func (fs *FS) Stat(name string) (hackpadfs.FileInfo, error) {
 
 // Chmod implements hackpadfs.ChmodFS
 func (fs *FS) Chmod(name string, mode hackpadfs.FileMode) error {
+	fs.opMu.Lock()
+	defer fs.opMu.Unlock()
 	file, err := fs.getFile(name)
 	if err != nil {
 		return fs.wrapperErr("chmod", name, err)
@@ -391,6 +413,8 @@ func (fs *FS) Chmod(name string, mode hackpadfs.FileMode) error {
 
 // Chtimes implements hackpadfs.ChtimesFS
 func (fs *FS) Chtimes(name string, atime time.Time, mtime time.Time) error {
+	fs.opMu.Lock()
+	defer fs.opMu.Unlock()
 	file, err := fs.getFile(name)
 	if err != nil {
 		return fs.wrapperErr("chtimes", name, err)
